@@ -205,10 +205,28 @@ def tasks(tier, seed):
             if pos:
                 ts.append({"name": f"tr-{c['transport']}-{c['keep_alive']}-{pos}-frag", "fn": "transport", "scen": c, "pos": pos,
                            "pre": "fragment"})
+    # histories: an exception-answered request right after an earlier (rejected / lost-then-rejected / answered) one on
+    # the same object, as ET.read_device_info does when it probes optional register blocks
+    from . import history as H
+    hcfgs = [dict(c) for c in cfgs if c["retries"] == 1] + [{"transport": tr, "keep_alive": ka, "T": 3, "retries": 0}
+                                                            for tr in ("udp", "tcp") for ka in (False, True)]
+    plans = [["exception"], ["exception", "exception"]] + ([["answer", "exception"], ["exception", "answer", "exception"]]
+                                                             if tier == "thorough" else [])
+    for c in hcfgs:
+        for plan in plans:
+            for first, second in (("exception", None), ("drop", "exception"), ("answer", None)):
+                if c["retries"] == 0 and first == "drop":
+                    continue
+                ts.append({"name": f"hist-{c['transport']}-{c['keep_alive']}-{c['retries']}-{'+'.join(plan)}-{first}", "fn": "history",
+                           "prop": PROP, "scen": c, "first": first, "second": second if c["retries"] else None, "plan": plan,
+                           "alphabet": ["drop", "answer", "exception"]})
     return ts
 
 
 def run_task(task):
+    if task["fn"] == "history":
+        from . import history as H
+        return H.run_task(task)
     if task["fn"] == "kernel":
         return {"harnesses": [explore(ExceptionKernel(task["framing"], task["kind"]), max_paths=2000, max_seconds=600)]}
     return {"harnesses": [explore(ExceptionTransport(task["scen"], task["pos"], task.get("pre", "drop")), max_paths=20000, max_seconds=900, witnesses_per_outcome=1)]}
@@ -216,6 +234,9 @@ def run_task(task):
 
 def replay(case):
     p = case["params"]
+    if case["harness"] == "history":
+        from . import history as H
+        return H.replay(PROP, case)
     if case["harness"] == "exception-frame":
         return ExceptionKernel(p["framing"], p["kind"]).concrete(case["inputs"])
     return ExceptionTransport(p["scenario"], p["pos"], p.get("pre", "drop")).concrete(case["inputs"])
